@@ -283,6 +283,22 @@ Section Writer.
     | e => e
     end.
 
+  (* write(data, amount): for (; amount > kSizeMax; data += kSizeMax, amount -= kSizeMax) write(data, kSizeMax);
+     then the loop above on what is left.  [M] = Compressor::kSizeMax, [chunks] bounds the recursion *)
+  Fixpoint ws_write_chunks (M : N) (chunks fuel : nat) (k : kind) (s : wstate) (data : list Z) : wres :=
+    if M <? len data then
+      match chunks with
+      | O => WErr true
+      | S c =>
+        match ws_write fuel k s (takeN M data) with
+        | WOk s' => ws_write_chunks M c fuel k s' (dropN M data)
+        | e => e
+        end
+      end
+    else ws_write fuel k s data.
+  Definition ws_write_full (fuel : nat) (k : kind) (s : wstate) (data : list Z) : wres :=
+    ws_write_chunks kSizeMax (length data) fuel k s data.
+
   (* do { ensure } while (!compressor_.Finish()); *)
   Fixpoint flush_loop (fuel : nat) (k : kind) (s : wstate) : wres :=
     match fuel with
@@ -310,7 +326,7 @@ Section Writer.
     match ops with
     | [] => WOk s
     | op :: r =>
-      match (match op with OpWrite d => ws_write fuel k s d | OpFlush => ws_flush fuel k s end) with
+      match (match op with OpWrite d => ws_write_full fuel k s d | OpFlush => ws_flush fuel k s end) with
       | WOk s' => run_ops fuel k s' r
       | e => e
       end
@@ -363,12 +379,49 @@ Section Writer.
       end
     end.
 
+  (* SetInput(data, kSizeMax); while (writer.AvailInput()) { EnsureOutput(writer, to); writer.Process(); } *)
+  Fixpoint gzc_feed (fuel : nat) (est : estate) (inp out : list Z) (size : N)
+    : option (option (estate * list Z * N)) :=             (* None = hang; Some None = throw *)
+    match inp with
+    | [] => Some (Some (est, out, size))
+    | _ =>
+      match fuel with
+      | O => None
+      | S f =>
+        let size1 := gzc_ensure out size in
+        let r := ecall KGz est Z_NO_FLUSH inp (N.min kSizeMax (size1 - len out)) in
+        if run_ok KGz (c_rc r) then gzc_feed f (c_st r) (dropN (c_used r) inp) (out ++ c_out r) size1
+        else Some None
+      end
+    end.
+
+  (* for (; amount > kSizeMax; data += kSizeMax, amount -= kSizeMax) { feed kSizeMax bytes; EnsureOutput; }
+     [M] = GZip::kSizeMax; returns the codec, the input that is left, the output so far, to.size() *)
+  Fixpoint gzc_chunks (M : N) (chunks fuel : nat) (est : estate) (data out : list Z) (size : N)
+    : option (option (estate * list Z * list Z * N)) :=
+    if M <? len data then
+      match chunks with
+      | O => None
+      | S c =>
+        match gzc_feed fuel est (takeN M data) out size with
+        | Some (Some (est', out', size')) => gzc_chunks M c fuel est' (dropN M data) out' (gzc_ensure out' size')
+        | Some None => Some None
+        | None => None
+        end
+      end
+    else Some (Some (est, data, out, size)).
+
   Definition gz_compress (fuel : nat) (w : world) (from : list Z) : fileres :=
     let (est, _) := enew w KGz in
-    match gzc_pre fuel est from [] gzc_initial with
+    match gzc_chunks kSizeMax (length from) fuel est from [] gzc_initial with
     | None => FileErr true
     | Some None => FileErr false
-    | Some (Some (est1, inp1, out1, size1)) => gzc_finish fuel est1 inp1 out1 size1
+    | Some (Some (est0, inp0, out0, size0)) =>
+      match gzc_pre fuel est0 inp0 out0 size0 with
+      | None => FileErr true
+      | Some None => FileErr false
+      | Some (Some (est1, inp1, out1, size1)) => gzc_finish fuel est1 inp1 out1 size1
+      end
     end.
 End Writer.
 
